@@ -19,12 +19,13 @@ UNITS = [Unit('fields', 'fields_inst.cpp',
 def field_zp_bound(F):
     """the largest characteristic Field_Zp::init accepts: read from its guard `if (Prime > N) throw`"""
     for f in F.funcs('init', cls='Field_Zp'):
+        names = {'Prime'} | {q['n'] for q in f.get('params', [])}    # the member, or the value about to become it
         for x in ir.walk(f.get('body')):
             if x.get('k') == 'IfStmt':
                 c = ir.skipcasts(x.get('cond'))
                 if c is not None and c.get('k') == 'BinaryOperator' and c.get('op') in ('>', '>='):
                     a, b = ir.skipcasts(c['c'][0]), ir.skipcasts(c['c'][1])
-                    if ir.show(a) == 'Prime' and b is not None and b.get('k') == 'IntegerLiteral' and \
+                    if ir.show(a) in names and b is not None and b.get('k') == 'IntegerLiteral' and \
                             ir.contains(x.get('then'), lambda y: y.get('k') == 'CXXThrowExpr'):
                         n = int(b['v'])
                         return n if c['op'] == '>' else n - 1
@@ -113,6 +114,9 @@ def run(tier, replay=None):
     chk.count('functions parsed', len(F.functions))
     run_ranges(chk, F)
     run_refusal(chk, F)
+    run_refusal_atomic(chk, F)
+    run_refusal_empty(chk, F)
+    run_inverse_product_width(chk, F)
     run_fresh_init(chk, F)
     run_isprime(chk, F, tier)
     run_partial_inverse(chk, F)
@@ -126,6 +130,138 @@ def run(tier, replay=None):
                         'are reduced (the property quantifies over reduced operands)', 'helper contracts of '
                         'tables/c10.json are each verified on the helper itself']
     return chk
+
+
+SETTERS = [('Zp_field_operators', 'set_characteristic'), ('Shared_Zp_field_element', 'initialize'), ('Field_Zp', 'init'),
+           ('Multi_field_operators', 'set_characteristic'), ('Shared_multi_field_element', 'initialize'),
+           ('Multi_field_operators_with_small_characteristics', 'set_characteristic'),
+           ('Shared_multi_field_element_with_small_characteristics', 'initialize')]
+
+
+def _state_write(x, statics):
+    """the member (or static member) a statement modifies, or None"""
+    def member_root(e):
+        e = ir.skipcasts(e)
+        while e is not None and e.get('k') in ('ArraySubscriptExpr', 'ParenExpr') or \
+                (e is not None and e.get('k') == 'CXXOperatorCallExpr' and e.get('op') == '[]'):
+            e = ir.skipcasts((e.get('c') or [None])[1] if e.get('k') == 'CXXOperatorCallExpr' else e['c'][0])
+        if e is None:
+            return None
+        if ir.this_field(e):
+            return ir.this_field(e)
+        if e.get('k') == 'DeclRefExpr' and e.get('n') in statics:
+            return e['n']
+        return None
+    t = ir.write_target(x)
+    if t is not None:
+        return member_root(t)
+    if x.get('k') == 'UnaryOperator' and x.get('op') in ('++', '--'):
+        return member_root(x['c'][0])
+    if ir.is_call(x) and ir.call_name(x) in ('resize', 'clear', 'push_back', 'emplace_back', 'reserve', 'assign',
+                                            'pop_back', 'erase', 'insert'):
+        r = ir.call_receiver(x)
+        return member_root(r) if r is not None else None
+    return None
+
+
+def run_refusal_atomic(chk, F):
+    """E2-refusal-atomic: "a characteristic that is not a prime greater than 1 is refused". A setter that throws has
+    not touched the field before: on no path of a run-time setter does a write to a member (an assignment, or
+    resize / clear / push_back / [] on it; swap is the commit) precede a `throw`. Otherwise the caller who catches the
+    refusal keeps a field whose table belongs to the refused value (x * x^-1 != 1) or that has no prime at all."""
+    n = 0
+    for cname, fname in SETTERS:
+        fs = [f for f in F.functions if f.get('clsname') == cname and f['name'] == fname and f.get('body') is not None]
+        fs = [f for f in fs if f['inst'] in (0, 2)] or fs
+        if not fs:
+            raise AnalysisBroken('C10: %s::%s not found' % (cname, fname))
+        f = fs[0]
+        cls = [c for c in F.classes if c['name'] == cname]
+        statics = {fl['n'] for c in cls for fl in c.get('fields', [])} | \
+                  {v['name'] for v in getattr(F, 'statics', []) if cname in (v.get('qual') or '')}
+        # static data members are named as the members are: trailing underscore
+        names = statics | {y.get('n') for y in ir.walk(f['body']) if y.get('k') == 'DeclRefExpr' and
+                           (y.get('n') or '').endswith('_') and y.get('dk') != 'ParmVar'}
+
+        def cl(x, names=names):
+            if x.get('k') == 'CXXThrowExpr':
+                return ['THROW']
+            w = _state_write(x, names)
+            return ['WRITE'] if w else []
+        ps = paths.enumerate_paths(f, cl, loop_mode='01', keep_conds=False, cap=60000)
+        if not any(p_.end == 'throw' or 'THROW' in p_.tags() for p_ in ps):
+            raise AnalysisBroken('C10: %s::%s never throws' % (cname, fname))
+        n += 1
+        bad = None
+        for p_ in ps:
+            t = p_.tags()
+            if 'THROW' in t:
+                t = t[:t.index('THROW')]
+            elif p_.end != 'throw':
+                continue
+            if 'WRITE' in t and bad is None:
+                bad = [e for e in p_.events if e[0] == 'WRITE'][0][1]
+        chk.ob('E2-refusal-atomic', '%s::%s has changed nothing when it refuses (%d paths)' % (cname, fname, len(ps)),
+               '%s:%d' % (rel(f['file']), f['line']), bad is None,
+               '' if bad is None else 'line %s `%s` modifies the field and a refusal comes afterwards on the same path: '
+               'the field the caller keeps is neither the former one nor a valid one' % (
+                   bad.get('l'), ir.show(bad)[:50]),
+               key='E2ref|%s::%s|atomic' % (cname, fname))
+    chk.expect_count('E2-refusal-atomic', 'run-time setters', n, 7)
+
+
+def run_inverse_product_width(chk, F):
+    """E3-inverse-width: the table of inverses is found by trying inv = 1, 2, ... until (inv * i) % p == 1, and a
+    composite p is recognised by inv * i == p: both need the exact product, which reaches (p-1)^2. The variable that
+    receives `inv * i` has a 64-bit type (p < 2^32), or the setter bounds p so that (p-1)^2 fits its type (Field_Zp:
+    int and p <= 46337, read from its guard)."""
+    n = 0
+    for cname, fname in SETTERS[:3]:
+        fs = [f for f in F.functions if f.get('clsname') == cname and f['name'] == fname and f.get('body') is not None]
+        insts = [f for f in fs if f['inst'] == 1] or fs
+        for f in insts:
+            prods = [x for x in ir.walk(f['body']) if x.get('k') == 'VarDecl' and x.get('init') is not None and
+                     (ir.skipcasts(x['init']) or {}).get('k') == 'BinaryOperator' and
+                     (ir.skipcasts(x['init']) or {}).get('op') == '*']
+            for x in prods:
+                n += 1
+                ty = (x.get('ct') or x.get('t') or '').replace('const ', '').strip()
+                wide = ty in ('unsigned long long', 'unsigned long', 'long long', 'long', 'std::size_t', 'size_t',
+                              'std::uint64_t', 'uint64_t')
+                bounded = False
+                if not wide and ty == 'int' and cname == 'Field_Zp':
+                    b = field_zp_bound(F)
+                    bounded = (b - 1) * (b - 1) <= 2 ** 31 - 1
+                ok = wide or bounded
+                chk.ob('E3-inverse-width', '%s::%s%s: the product `%s` of the inverse search is exact' % (
+                    cname, fname, ' [%s]' % elem_type(f) if f['inst'] == 1 else '', ir.show(x['init'])[:30]),
+                    '%s:%s' % (rel(f['file']), x.get('l')), ok,
+                    '' if ok else '`%s %s = %s` is cut to %s: beyond (p-1)^2 > max the search finds a wrong inverse or '
+                    'never ends, and a composite characteristic is not recognised' % (ty, x.get('n'),
+                                                                                      ir.show(x['init'])[:30], ty),
+                    key='E3w|%s::%s|inverse-width|%s' % (cname, fname, ty))
+    chk.expect_count('E3-inverse-width', 'products of the inverse search', n, 3)
+
+
+def run_refusal_empty(chk, F):
+    """E2-refusal-empty: an interval that contains no prime is refused by every multi-field setter: a decision
+    `<primes>.empty()` (or a size test against 0) whose true arm throws."""
+    n = 0
+    for cname, fname in SETTERS[3:] + [('Multi_field', 'init')]:
+        fs = [f for f in F.functions if f.get('clsname') == cname and f['name'] == fname and f.get('body') is not None]
+        fs = [f for f in fs if f['inst'] in (0, 2)] or fs
+        if not fs:
+            raise AnalysisBroken('C10: %s::%s not found' % (cname, fname))
+        f = fs[0]
+        n += 1
+        ok = any(x.get('k') == 'IfStmt' and _has_throw(x.get('then')) and
+                 re.search(r'primes_?\.(empty\(\)|size\(\) == 0)', ir.show(x.get('cond')))
+                 for x in ir.walk(f['body']))
+        chk.ob('E2-refusal-empty', '%s::%s refuses an interval without prime' % (cname, fname),
+               '%s:%d' % (rel(f['file']), f['line']), ok,
+               '' if ok else 'no `if (primes.empty()) throw`: the product of no prime is 1, the field silently becomes '
+               'Z/1Z (characteristic 1, multiplicative identity 0)', key='E2ref|%s::%s|empty-interval' % (cname, fname))
+    chk.expect_count('E2-refusal-empty', 'multi-field setters', n, 5)
 
 
 # ------------------------------------------------------------------ refusal of non-primes (structural)
